@@ -327,8 +327,16 @@ def reg_source(reg):
 # ---------------------------------------------------------------- documents
 
 def gen_doc(rng, width, brace_level=2, blocks=True, max_entries=3):
+    """A document that fits below 64K (a large one generated at a high origin is generated again at a low one)."""
+    doc = _gen_doc(rng, width, brace_level, blocks, max_entries)
+    while doc['end'] > 65536:
+        doc = _gen_doc(rng, width, brace_level, blocks, max_entries, org=rng.choice([16384, 23296, 24576, 30000]))
+    return doc
+
+def _gen_doc(rng, width, brace_level=2, blocks=True, max_entries=3, org=None):
     """width: the line width the case will be converted at (used only to aim word lengths at the interesting boundaries)."""
-    org = rng.choice([16384, 23296, 24576, 30000, 32768, 40000, 49152, 60000, rng.randint(10000, 60000)])
+    if org is None:
+        org = rng.choice([16384, 23296, 24576, 30000, 32768, 40000, 49152, 60000, rng.randint(10000, 60000)])
     addr = org
     entries = []
     cw = max(10, width - 28)       # a typical instruction-comment column
